@@ -5,6 +5,7 @@ import RNacos.Driver.AuthDrv
 import RNacos.Driver.ConfigDrv
 import RNacos.Driver.NamingDrv
 import RNacos.Driver.IndexDrv
+import RNacos.Driver.LogDrv
 open RNacos.Driver
 
 /-- Generic loop: `# …` lines are echoed and reset the state. -/
@@ -41,6 +42,8 @@ def main (args : List String) : IO UInt32 := do
   | ["config", "--spec"] => loop stdin stdout ({} : ConfigDrv.SpecSt) ConfigDrv.specStep {}; return 0
   | ["naming"] => loop stdin stdout ({} : RNacos.Naming.Naming) NamingDrv.step {}; return 0
   | ["naming", "--spec"] => loop stdin stdout ({} : NamingDrv.SpecSt) NamingDrv.specStep {}; return 0
+  | ["logfile"] => loop stdin stdout ({} : LogDrv.St) LogDrv.step {}; return 0
+  | ["logfile", "--spec"] => loop stdin stdout ({} : LogDrv.SpecSt) LogDrv.specStep {}; return 0
   | ["indexfile"] => loop stdin stdout ({} : IndexDrv.St) IndexDrv.step {}; return 0
   | ["indexfile", "--spec"] => loop stdin stdout ({} : IndexDrv.SpecSt) IndexDrv.specStep {}; return 0
   | _ => IO.eprintln "usage: driver <model> [--spec]"; return 2
